@@ -561,6 +561,15 @@ def register_pretty(type=None, predicate=None):
     return decorator
 
 
+def _promote_deferred(type, deferred_key, deferred_dispatch):
+    # Register first and remove afterwards, so that a concurrent caller
+    # either still sees the deferred entry or already sees the registered
+    # printer.
+    pretty_dispatch.register(type, partial(_run_pretty, deferred_dispatch))
+    if _DEFERRED_DISPATCH_BY_NAME.get(deferred_key) is deferred_dispatch:
+        _DEFERRED_DISPATCH_BY_NAME.pop(deferred_key, None)
+
+
 def is_registered(
     type,
     *,
@@ -577,12 +586,10 @@ def is_registered(
         # Check deferred printers for the type exactly. A pending deferred
         # printer was registered after any direct one for the same type.
         deferred_key = get_deferred_key(type)
-        if deferred_key in _DEFERRED_DISPATCH_BY_NAME:
+        deferred_dispatch = _DEFERRED_DISPATCH_BY_NAME.get(deferred_key)
+        if deferred_dispatch is not None:
             if register_deferred:
-                deferred_dispatch = _DEFERRED_DISPATCH_BY_NAME.pop(
-                    deferred_key
-                )
-                register_pretty(type)(deferred_dispatch)
+                _promote_deferred(type, deferred_key, deferred_dispatch)
             return True
 
     if type in pretty_dispatch.registry:
@@ -595,12 +602,12 @@ def is_registered(
         # Check deferred printers for supertypes.
         for supertype in type.__mro__[1:]:
             deferred_key = get_deferred_key(supertype)
-            if deferred_key in _DEFERRED_DISPATCH_BY_NAME:
+            deferred_dispatch = _DEFERRED_DISPATCH_BY_NAME.get(deferred_key)
+            if deferred_dispatch is not None:
                 if register_deferred:
-                    deferred_dispatch = _DEFERRED_DISPATCH_BY_NAME.pop(
-                        deferred_key
+                    _promote_deferred(
+                        supertype, deferred_key, deferred_dispatch
                     )
-                    register_pretty(supertype)(deferred_dispatch)
                 return True
     return pretty_dispatch.dispatch(type) is not _BASE_DISPATCH
 
